@@ -105,12 +105,12 @@ func VerifC07() {
 	if verifFlag("ext") {
 		exts = []string{".x"}
 	}
-	route := verifChoose("route", 0, 8)
-	if forest && (route == 2 || route == 3 || route == 7 || route == 8) {
+	route := verifChoose("route", 0, 11)
+	if forest && (route == 2 || route == 3 || route == 7 || route == 8 || route == 10 || route == 11) {
 		verifAssume(false) // From-Root takes one root
 	}
 	// an encode option on a mkdir call selects the no-op grower for Output; it must not switch validation off
-	withEnc := route != 4 && verifFlag("encodeOption")
+	withEnc := route != 4 && route < 9 && verifFlag("encodeOption")
 	target := c07Target()
 	c07Seal()
 	w := newVerifWriter()
@@ -162,17 +162,31 @@ func VerifC07() {
 		err = MkdirFromRoot(root, opts...)
 	case 4: // the CLI's dry-run route
 		err = OutputFromMarkdown(w, &verifReader{lines: mdRows()}, WithDryRun(), WithFileExtensions(exts))
+	case 9: // the same through the pipeline
+		err = OutputFromMarkdown(w, &verifReader{lines: mdRows()}, WithDryRun(), WithFileExtensions(exts), WithMassive(context.Background()))
+	case 10, 11: // Output of a programmatic tree with the dry-run option, simple and massive
+		root := NewRoot(names[0])
+		at := []*Node{root}
+		for i := 1; i < nn; i++ {
+			c := at[depths[i]-1].Add(names[i])
+			at = append(at[:depths[i]], c)
+		}
+		opts := []Option{WithDryRun(), WithFileExtensions(exts)}
+		if route == 11 {
+			opts = append(opts, WithMassive(context.Background()))
+		}
+		err = OutputFromRoot(w, root, opts...)
 	}
 	calls := verifFSCalls()
 	for _, p := range calls {
 		verifAssert(c07Within(target, p), "C07.inside")
 	}
-	if route == 1 || route == 3 || route == 4 || route == 6 || route == 8 {
+	if route == 1 || route == 3 || route == 4 || route == 6 || route == 8 || route >= 9 {
 		verifAssert(len(calls) == 0, "C07.dryrun.nothing")
 	}
 	if !allValid {
 		verifAssert(err != nil, "C07.reject")
-		if route < 5 {
+		if route < 5 || route == 10 {
 			// without the massive option nothing at all is created
 			verifAssert(len(calls) == 0, "C07.nothing")
 		}
